@@ -55,6 +55,14 @@ Theorem C18_invariant : forall cfg C sched f ws, inv cfg C f ws -> inv cfg C (fs
 Proof. exact exec_inv. Qed.
 Print Assumptions C18_invariant.
 
+(* staging on ANOTHER file system (.temp a symlink or mount): the kernel refuses the rename with
+   EXDEV and nothing changes — one of the step effects ([eff]) under which [step_inv] preserves the
+   invariant, i.e. an instance of "this step fails" *)
+Theorem C18_cross_device_rename_is_covered : forall x f s,
+  eff f s (fst (sys_exec_x x f s)) (snd (sys_exec_x x f s)).
+Proof. exact sys_exec_x_eff. Qed.
+Print Assumptions C18_cross_device_rename_is_covered.
+
 (* staging files never collide with key paths *)
 Theorem C18_staging_disjoint : forall cfg name k p,
   keypath cfg k p -> stage_path (f_base cfg) name <> p.
